@@ -1,52 +1,7 @@
 import PcVerif.Spec.Geometry
+import PcVerif.Lemmas.StrLemmas
 namespace PcVerif.Geo
 open Str
-
-theorem spanDecimals_spec (s : Str) : s = (spanDecimals s).1 ++ (spanDecimals s).2 ∧
-    (∀ c ∈ (spanDecimals s).1, isDecimal c = true) := by
-  induction s with
-  | nil => simp [spanDecimals]
-  | cons c s ih =>
-    unfold spanDecimals
-    split
-    · rename_i h
-      obtain ⟨e, hd⟩ := ih
-      refine ⟨by simpa using e, ?_⟩
-      intro x hx
-      simp only [List.mem_cons] at hx
-      rcases hx with rfl | hx
-      · exact h
-      · exact hd x hx
-    · simp
-
-theorem spanDecimals_append (a rest : Str) (ha : ∀ c ∈ a, isDecimal c = true)
-    (hr : ∀ c r, rest = c :: r → isDecimal c = false) : spanDecimals (a ++ rest) = (a, rest) := by
-  induction a with
-  | nil =>
-    cases rest with
-    | nil => simp [spanDecimals]
-    | cons c r => simp [spanDecimals, hr c r rfl]
-  | cons x a ih =>
-    have hx : isDecimal x = true := ha x (by simp)
-    have := ih (fun c hc => ha c (List.mem_cons_of_mem _ hc))
-    simp [spanDecimals, hx, this]
-
-theorem dropPrefix?_spec (s p r : Str) (h : dropPrefix? s p = some r) : s = p ++ r := by
-  induction p generalizing s with
-  | nil => simp [dropPrefix?] at h; simp [h]
-  | cons c p ih =>
-    cases s with
-    | nil => simp [dropPrefix?] at h
-    | cons d s =>
-      simp only [dropPrefix?] at h
-      split at h
-      · rename_i e; subst e; simp [ih s h]
-      · simp at h
-
-theorem dropPrefix?_append (p r : Str) : dropPrefix? (p ++ r) p = some r := by
-  induction p with
-  | nil => cases r <;> simp [dropPrefix?]
-  | cons c p ih => simp [dropPrefix?, ih]
 
 theorem matchNumber_spec (s ip fp r : Str) (h : matchNumber s = some (ip, fp, r)) :
     IsDecimals ip ∧ (fp = [] ∨ IsDecimals fp) ∧ s = ip ++ (if fp = [] then [] else '.' :: fp) ++ r := by
